@@ -814,6 +814,19 @@ func makeDefaultValue(typ *TypeDescriptor, val *parser.ConstValue, tree *parser.
 	}
 	switch val.Type {
 	case parser.ConstType_ConstInt:
+		if x := val.TypedValue.Int; x != nil && typ.typ == DOUBLE {
+			// `1: double d = 1` is legal Thrift
+			d := float64(*x)
+			return makeDefaultValue(typ, &parser.ConstValue{Type: parser.ConstType_ConstDouble, TypedValue: &parser.ConstTypedValue{Double: &d}}, tree)
+		}
+		if x := val.TypedValue.Int; x != nil && typ.typ == BOOL {
+			// `1: bool b = 1` is legal Thrift
+			id := "false"
+			if *x != 0 {
+				id = "true"
+			}
+			return makeDefaultValue(typ, &parser.ConstValue{Type: parser.ConstType_ConstIdentifier, TypedValue: &parser.ConstTypedValue{Identifier: &id}}, tree)
+		}
 		if !typ.typ.IsInt() {
 			return nil, fmt.Errorf("mismatched int default value with type %s", typ.name)
 		}
